@@ -162,7 +162,12 @@ type TreeOpts struct {
 	Val      ValueOpts
 	// OnlyTypes, when set, restricts leaf types (used by focused checks).
 	OnlyTypes []string
+	// NoDeep suppresses the occasional deep chain (see Tree).
+	NoDeep bool
 }
+
+// deepChains: nesting depths of the occasional chain of grouped AVPs, well beyond MaxDepth.
+var deepChains = []int{7, 8, 9, 10, 12, 16, 17, 33, 64, 100}
 
 // Header draws command, application, flags and identifiers such that the
 // dictionary resolves the command (ReadMessage rejects the others).
@@ -210,6 +215,30 @@ func (c *Catalog) Tree(t *rapid.T, app uint32, o TreeOpts) []*AVP {
 	out := make([]*AVP, 0, n)
 	for i := 0; i < n; i++ {
 		out = append(out, c.avp(t, app, o, 1))
+	}
+	// 1 in 16 trees: one top-level AVP is buried under a chain of grouped AVPs much deeper than
+	// MaxDepth (a leaf, and now and then a sibling, at the bottom and on the way down)
+	if es := c.reachable(app).byType[TGrouped]; n > 0 && !o.NoDeep && len(o.OnlyTypes) == 0 && len(es) > 0 && rapid.IntRange(0, 15).Draw(t, "deep-chain") == 0 {
+		d := rapid.SampledFrom(deepChains).Draw(t, "chain-depth")
+		at := rapid.IntRange(0, n-1).Draw(t, "chain-at")
+		inner := out[at]
+		for l := 0; l < d; l++ {
+			e := es[rapid.IntRange(0, len(es)-1).Draw(t, "chain-entry")]
+			g := &AVP{Code: e.Code, Vendor: e.Vendor, Flags: 0x40, V: Val{T: TGrouped}, Children: []*AVP{inner}}
+			if e.Vendor != 0 {
+				g.Flags |= 0x80
+			}
+			if rapid.IntRange(0, 5).Draw(t, "chain-sibling") == 0 {
+				sib := c.avp(t, app, TreeOpts{MaxTop: 1, MaxDepth: 1, Val: o.Val, NoDeep: true}, 1)
+				if rapid.Bool().Draw(t, "sibling-first") {
+					g.Children = []*AVP{sib, inner}
+				} else {
+					g.Children = append(g.Children, sib)
+				}
+			}
+			inner = g
+		}
+		out[at] = inner
 	}
 	return out
 }
